@@ -6,6 +6,7 @@ kinds of report content generators. Derived classes must implement the
 generate_intermediate_format function as well as to_json, to_csv, etc.
 """
 
+import contextlib
 from abc import ABC, abstractmethod
 from typing import TYPE_CHECKING, Any, Optional
 
@@ -374,4 +375,23 @@ class ReportBase(ABC):
         if callable(expr):
             result = expr(query)
             return bool(result)
+        if isinstance(expr, str):
+            # Filter expressions arrive as written: '@none' selects nothing, '@all' everything,
+            # a flag name the properties that carry the flag ('~flag': those that do not).
+            # (A non-empty string is not "true": 'hidetask @none' must not hide every task.)
+            text = expr.strip()
+            if text == "@none" or not text:
+                return False
+            if text == "@all":
+                return True
+            negate = text.startswith("~")
+            flag = text[1:].strip() if negate else text
+            prop = getattr(query, "property", None)
+            if prop is None or not flag.replace("_", "").isalnum():
+                return False  # an expression this evaluator cannot read hides nothing
+            flags: Any = []
+            with contextlib.suppress(Exception):
+                flags = prop.get("flags", 0) or []
+            has_flag = flag in [str(f) for f in flags]
+            return (not has_flag) if negate else has_flag
         return bool(expr)
